@@ -52,7 +52,7 @@ func (x *runner) one(sp sv.Spec, classes ...string) {
 	if x.noModel {
 		return
 	}
-	if !sv.Encodable(sp, o) {
+	if !sv.Encodable(sp, o) || len(sp.Pend) > 0 { // outstanding requests: model cases are the C07 harness's
 		x.res.Histogram["not-in-model-scope"]++
 		return
 	}
@@ -377,5 +377,15 @@ var corpus = []sv.Spec{
 	// serveTests case 14: the end-of-element boundary
 	{NS: "jabber:client", Own: sv.OwnFull, Script: "<iq type='get' id='1234'><unknownpayload xmlns='unknown'/></iq><iq type='get' id='5'/></stream:stream>", Progs: [][]sv.Op{{{K: "read", N: 8}}}, Label: "corpus/read-beyond-end"},
 	{NS: "jabber:server", Own: "example.net", Script: " <presence from='example.net'/>\n<message from='example.net/x'><body>a</body></message> </stream:stream>", Progs: [][]sv.Op{{{K: "skip", N: 9}}, nil}, Label: "corpus/server-ns"},
+	// responses to outstanding requests of the session go to the waiting call, the rest to the handler
+	{NS: "jabber:client", Own: sv.OwnFull, Script: "<iq type='get' id='x'/><iq type='result' id='x'><q xmlns='urn:example:q'/></iq><message id='x'/></stream:stream>",
+		Pend: []sv.PendSpec{{ID: "x", Kind: "iq", Type: "get", Prog: []sv.Op{{K: "read", N: 1}, {K: "readret", N: 40}}}}, Label: "corpus/response-to-waiter"},
+	// ... and a stream-level construct inside such a response must end the session too (known finding: it does not)
+	{NS: "jabber:client", Own: sv.OwnFull, Script: "<iq type='result' id='x'><!-- c --><a/></iq><iq type='get' id='y'/></stream:stream>",
+		Pend: []sv.PendSpec{{ID: "x", Kind: "iq", Type: "get", Prog: []sv.Op{{K: "read", N: 1}, {K: "readret", N: 40}}}}, Label: "corpus/comment-in-response"},
+	{NS: "jabber:client", Own: sv.OwnFull, Script: "<iq type='error' id='x'><e><?pi?></e></iq> <b/></stream:stream>",
+		Pend: []sv.PendSpec{{ID: "x", Kind: "iq", Type: "set", Prog: []sv.Op{{K: "read", N: 1}}}}, Label: "corpus/pi-in-response"},
+	{NS: "jabber:client", Own: sv.OwnFull, Script: "<iq type='result' id='x'><stream:features/></iq></stream:stream>",
+		Pend: []sv.PendSpec{{ID: "x", Kind: "iq", Type: "get", Cancel: true, Prog: []sv.Op{{K: "read", N: 1}}}}, Label: "corpus/stream-element-in-dropped-response"},
 	{NS: "jabber:client", Own: sv.OwnFull, Script: "<a><b><c>deep</c></b></a><d/>", Progs: [][]sv.Op{{{K: "read", N: 2}}, {{K: "read", N: 2}}}, Label: "corpus/no-close"},
 }
